@@ -759,7 +759,14 @@ class Expander:
                 # named clauses in hand-written lemmas / stand-ins are also addressable
                 self.out_lines.append(ln)
                 i += 1
-        return '\n'.join(self.out_lines) + '\n'
+        text = '\n'.join(self.out_lines) + '\n'
+        if 'ReverseSearcher' in text:
+            # the where-clause of str::ends_with names an unstable trait; the feature gate only affects the declaration
+            text = '#![feature(pattern)]\n' + text
+            self.out_lines.insert(0, '#![feature(pattern)]')
+            self.clause_lines = {k + 1: v for k, v in self.clause_lines.items()}
+            self.fn_ranges = [(a + 1, b + 1, l, f, sl, bs + 1) for (a, b, l, f, sl, bs) in self.fn_ranges]
+        return text
 
     def locate(self, out_line):
         """map an output line to (fn label, clause id or None, src_file, src_line or None)"""
